@@ -81,6 +81,8 @@ var kernelSpecs = []kernelSpec{
 	{"jpeg/lossless14sv1", "", "diffCategory", 64},
 	{"jpeg/baseline", "", "huffmanCategory", 64},
 	{"jpeg/extended", "", "sequential12Category", 64},
+	{"jpeg2000/colorspace", "", "RCTForward", 0},
+	{"jpeg2000/colorspace", "", "RCTInverse", 0},
 }
 
 type kfunc struct {
@@ -93,6 +95,7 @@ type kfunc struct {
 	out    string
 	recvNm string
 	ptr    bool
+	named  []string // named results (a bare return returns them)
 }
 
 type kgen struct {
@@ -163,12 +166,17 @@ func (g *kgen) tyOf(t types.Type, pos token.Pos) kty {
 		}
 	case *types.Struct:
 		if n, ok := t.(*types.Named); ok {
-			nm := pkgAlias(g.cur.pkg.Dir) + "_" + n.Obj().Name()
-			if n.Obj().Pkg() != nil && n.Obj().Pkg() != g.cur.pkg.Types {
-				g.fail(pos, "struct from another package: %s", n)
+			if n.Obj().Pkg() == nil {
+				g.fail(pos, "struct without package: %s", n)
+				return kty{kind: "Z"}
 			}
+			// named after the package that declares it (for a struct of the current package this is g.cur.pkg.Dir)
+			nm := pkgAlias(strings.TrimPrefix(n.Obj().Pkg().Path(), "github.com/cocosip/go-dicom-codecs/")) + "_" + n.Obj().Name()
 			if _, seen := g.structs[nm]; !seen {
 				g.structs[nm] = u
+				for _, fld := range kfields(u) { // struct-typed fields are declared before their container
+					g.tyOf(fld.Type(), pos)
+				}
 				g.sorder = append(g.sorder, nm)
 			}
 			return kty{kind: "struct", sname: nm}
@@ -178,6 +186,31 @@ func (g *kgen) tyOf(t types.Type, pos token.Pos) kty {
 	}
 	g.fail(pos, "unsupported type %s", t)
 	return kty{kind: "Z"}
+}
+
+// kfields: the fields of a struct that the translation keeps.  Fields of a type outside the subset
+// (slices, maps, pointers, interfaces, functions, arrays ...) are omitted from the Record; a kernel that
+// touches such a field is rejected where it uses it (unsupported type / unsupported selector).
+func kfields(st *types.Struct) []*types.Var {
+	var out []*types.Var
+	for i := 0; i < st.NumFields(); i++ {
+		f := st.Field(i)
+		ok := false
+		switch u := f.Type().Underlying().(type) {
+		case *types.Basic:
+			switch u.Kind() {
+			case types.Bool, types.Int, types.Int64, types.Uint, types.Uint64, types.Int32, types.Int16, types.Int8,
+				types.Uint32, types.Uint16, types.Uint8:
+				ok = true
+			}
+		case *types.Struct:
+			_, ok = f.Type().(*types.Named)
+		}
+		if ok {
+			out = append(out, f)
+		}
+	}
+	return out
 }
 
 func (k kty) coq() string {
@@ -249,8 +282,8 @@ func (g *kgen) expr(e ast.Expr) string {
 		if t.kind == "struct" {
 			st := g.structs[t.sname]
 			var fs []string
-			for i := 0; i < st.NumFields(); i++ {
-				fs = append(fs, fieldVar(cid(x.Name), st.Field(i).Name()))
+			for _, fld := range kfields(st) {
+				fs = append(fs, fieldVar(cid(x.Name), fld.Name()))
 			}
 			return "(mk_" + t.sname + " " + strings.Join(fs, " ") + ")"
 		}
@@ -260,6 +293,13 @@ func (g *kgen) expr(e ast.Expr) string {
 			if _, isPkg := info.Uses[id].(*types.PkgName); !isPkg {
 				t := g.tyOf(g.typeOfExpr(id), x.Pos())
 				if t.kind == "struct" {
+					kept := false
+					for _, fld := range kfields(g.structs[t.sname]) {
+						kept = kept || fld.Name() == x.Sel.Name
+					}
+					if !kept {
+						g.fail(x.Pos(), "field %s has a type outside the subset", x.Sel.Name)
+					}
 					return fieldVar(cid(id.Name), x.Sel.Name)
 				}
 			}
@@ -289,6 +329,8 @@ func (g *kgen) expr(e ast.Expr) string {
 		a, b := g.expr(x.X), g.expr(x.Y)
 		bin := func(f string) string { return t.wrap("(" + f + " " + a + " " + b + ")") }
 		inf := func(op string) string { return t.wrap("(" + a + " " + op + " " + b + ")") }
+		// operators that cannot leave the range of the type when both operands are in range
+		raw := func(f string) string { return "(" + f + " " + a + " " + b + ")" }
 		switch x.Op {
 		case token.ADD:
 			return inf("+")
@@ -299,19 +341,19 @@ func (g *kgen) expr(e ast.Expr) string {
 		case token.QUO:
 			return bin("Z.quot")
 		case token.REM:
-			return bin("Z.rem")
+			return raw("Z.rem")
 		case token.AND:
-			return bin("Z.land")
+			return raw("Z.land")
 		case token.OR:
-			return bin("Z.lor")
+			return raw("Z.lor")
 		case token.XOR:
-			return bin("Z.lxor")
+			return raw("Z.lxor")
 		case token.AND_NOT:
-			return bin("Z.ldiff")
+			return raw("Z.ldiff")
 		case token.SHL:
 			return bin("Z.shiftl")
 		case token.SHR:
-			return bin("Z.shiftr")
+			return raw("Z.shiftr")
 		case token.LAND:
 			return "(" + a + " && " + b + ")"
 		case token.LOR:
@@ -360,8 +402,8 @@ func (g *kgen) expr(e ast.Expr) string {
 			vals[kv.Key.(*ast.Ident).Name] = g.expr(kv.Value)
 		}
 		var fs []string
-		for i := 0; i < st.NumFields(); i++ {
-			f := st.Field(i)
+		for _, fld := range kfields(st) {
+			f := fld
 			if v, ok := vals[f.Name()]; ok {
 				fs = append(fs, v)
 			} else if g.tyOf(f.Type(), x.Pos()).kind == "bool" {
@@ -473,8 +515,8 @@ func (g *kgen) expand(name string, t kty) []kvar {
 	}
 	st := g.structs[t.sname]
 	var out []kvar
-	for i := 0; i < st.NumFields(); i++ {
-		out = append(out, kvar{fieldVar(cid(name), st.Field(i).Name()), g.tyOf(st.Field(i).Type(), token.NoPos)})
+	for _, fld := range kfields(st) {
+		out = append(out, kvar{fieldVar(cid(name), fld.Name()), g.tyOf(fld.Type(), token.NoPos)})
 	}
 	return out
 }
@@ -582,7 +624,7 @@ func (g *kgen) ret(e string) string {
 
 func (g *kgen) implicitReturn() string {
 	// function end without return: only legal for functions without results
-	if g.cur.decl.Type.Results != nil && len(g.cur.decl.Type.Results.List) > 0 {
+	if g.cur.decl.Type.Results != nil && len(g.cur.decl.Type.Results.List) > 0 && len(g.cur.named) == 0 {
 		g.fail(g.cur.decl.End(), "missing return")
 	}
 	return g.ret(g.results(nil))
@@ -594,12 +636,15 @@ func (g *kgen) results(rs []ast.Expr) string {
 	for _, r := range rs {
 		parts = append(parts, g.expr(r))
 	}
+	if len(rs) == 0 {
+		parts = append(parts, g.cur.named...)
+	}
 	if g.cur.ptr {
 		rt := g.tyOf(g.typeOfExpr(g.cur.decl.Recv.List[0].Names[0]), token.NoPos)
 		st := g.structs[rt.sname]
 		var fs []string
-		for i := 0; i < st.NumFields(); i++ {
-			fs = append(fs, fieldVar(g.cur.recvNm, st.Field(i).Name()))
+		for _, fld := range kfields(st) {
+			fs = append(fs, fieldVar(g.cur.recvNm, fld.Name()))
 		}
 		parts = append(parts, "(mk_"+rt.sname+" "+strings.Join(fs, " ")+")")
 	}
@@ -1063,10 +1108,21 @@ func (g *kgen) translate(k *kfunc) {
 			sc = append(sc, kvar{cid(n.Name), t})
 		}
 	}
+	k.named = nil
 	if fd.Type.Results != nil {
 		for _, fl := range fd.Type.Results.List {
-			if len(fl.Names) > 0 {
-				g.fail(fl.Pos(), "named results")
+			for _, n := range fl.Names {
+				t := g.tyOf(g.typeOfExpr(n), n.Pos())
+				if t.kind == "struct" {
+					g.fail(n.Pos(), "named struct result")
+				}
+				zero := "0"
+				if t.kind == "bool" {
+					zero = "false"
+				}
+				pre += "let " + cid(n.Name) + " := " + zero + " in\n  "
+				sc = append(sc, kvar{cid(n.Name), t})
+				k.named = append(k.named, cid(n.Name))
 			}
 		}
 	}
@@ -1076,125 +1132,140 @@ func (g *kgen) translate(k *kfunc) {
 	k.out = hdr + strings.Join(g.aux, "") + fmt.Sprintf("Definition %s %s :=\n  %s%s.\n\n", k.coq, strings.Join(params, " "), pre, body)
 }
 
-func init() {
-	register("kernels", func() error {
-		g := &kgen{funcs: map[string]*kfunc{}, structs: map[string]*types.Struct{}}
-		var keys []string
-		for _, s := range kernelSpecs {
-			p, err := loadFactsPkg(s.Dir) // repo-internal imports resolved from source, independent of the working directory
-			if err != nil {
-				return err
+// runKernels translates one configured list into one generated file.
+func runKernels(specs []kernelSpec, outFile string, requires string) error {
+	g := &kgen{funcs: map[string]*kfunc{}, structs: map[string]*types.Struct{}}
+	var keys []string
+	for _, s := range specs {
+		p, err := loadFactsPkg(s.Dir) // repo-internal imports resolved from source, independent of the working directory
+		if err != nil {
+			return err
+		}
+		fd := g.findDecl(p, s.Recv, s.Name)
+		if fd == nil {
+			return fmt.Errorf("kernel %s %s.%s not found", s.Dir, s.Recv, s.Name)
+		}
+		nm := pkgAlias(s.Dir) + "_"
+		if s.Recv != "" {
+			nm += s.Recv + "_"
+		}
+		k := &kfunc{spec: s, pkg: p, decl: fd, coq: nm + s.Name, calls: map[string]bool{}}
+		if fd.Recv != nil {
+			_, k.ptr = fd.Recv.List[0].Type.(*ast.StarExpr)
+			if len(fd.Recv.List[0].Names) == 0 {
+				return fmt.Errorf("kernel %s: unnamed receiver", s.Name)
 			}
-			fd := g.findDecl(p, s.Recv, s.Name)
-			if fd == nil {
-				return fmt.Errorf("kernel %s %s.%s not found", s.Dir, s.Recv, s.Name)
-			}
-			nm := pkgAlias(s.Dir) + "_"
-			if s.Recv != "" {
-				nm += s.Recv + "_"
-			}
-			k := &kfunc{spec: s, pkg: p, decl: fd, coq: nm + s.Name, calls: map[string]bool{}}
-			if fd.Recv != nil {
-				_, k.ptr = fd.Recv.List[0].Type.(*ast.StarExpr)
-				if len(fd.Recv.List[0].Names) == 0 {
-					return fmt.Errorf("kernel %s: unnamed receiver", s.Name)
-				}
-				if k.ptr {
-					// a pointer receiver that is never assigned through is treated like a value receiver
-					rn := fd.Recv.List[0].Names[0].Name
-					mut := false
-					ast.Inspect(fd.Body, func(n ast.Node) bool {
-						chk := func(e ast.Expr) {
-							if se, ok := e.(*ast.SelectorExpr); ok {
-								if id, ok := se.X.(*ast.Ident); ok && id.Name == rn {
-									mut = true
-								}
-							}
-							if st, ok := e.(*ast.StarExpr); ok {
-								if id, ok := st.X.(*ast.Ident); ok && id.Name == rn {
-									mut = true
-								}
+			if k.ptr {
+				// a pointer receiver that is never assigned through is treated like a value receiver
+				rn := fd.Recv.List[0].Names[0].Name
+				mut := false
+				ast.Inspect(fd.Body, func(n ast.Node) bool {
+					chk := func(e ast.Expr) {
+						if se, ok := e.(*ast.SelectorExpr); ok {
+							if id, ok := se.X.(*ast.Ident); ok && id.Name == rn {
+								mut = true
 							}
 						}
-						switch a := n.(type) {
-						case *ast.AssignStmt:
-							for _, l := range a.Lhs {
-								chk(l)
-							}
-						case *ast.IncDecStmt:
-							chk(a.X)
-						case *ast.UnaryExpr:
-							if a.Op == token.AND {
-								mut = true // address taken: give up on purity
+						if st, ok := e.(*ast.StarExpr); ok {
+							if id, ok := st.X.(*ast.Ident); ok && id.Name == rn {
+								mut = true
 							}
 						}
-						return true
-					})
-					k.ptr = mut
-				}
-			}
-			key := kkey(s.Dir, s.Recv, s.Name)
-			g.funcs[key] = k
-			keys = append(keys, key)
-		}
-		for _, key := range keys {
-			k := g.funcs[key]
-			k.opt = g.usesLoopOrOptCallee(k, map[string]bool{})
-		}
-		for _, key := range keys {
-			g.translate(g.funcs[key])
-			if g.err != nil {
-				return g.err
-			}
-		}
-		// topological order by calls (stable: configured order)
-		done := map[string]bool{}
-		var order []string
-		var visit func(string, int) error
-		visit = func(key string, depth int) error {
-			if done[key] {
-				return nil
-			}
-			if depth > len(keys) {
-				return fmt.Errorf("recursive kernels at %s", key)
-			}
-			var cs []string
-			for c := range g.funcs[key].calls {
-				cs = append(cs, c)
-			}
-			sort.Strings(cs)
-			for _, c := range cs {
-				if err := visit(c, depth+1); err != nil {
-					return err
-				}
-			}
-			done[key] = true
-			order = append(order, key)
-			return nil
-		}
-		for _, key := range keys {
-			if err := visit(key, 0); err != nil {
-				return err
+					}
+					switch a := n.(type) {
+					case *ast.AssignStmt:
+						for _, l := range a.Lhs {
+							chk(l)
+						}
+					case *ast.IncDecStmt:
+						chk(a.X)
+					case *ast.UnaryExpr:
+						if a.Op == token.AND {
+							mut = true // address taken: give up on purity
+						}
+					}
+					return true
+				})
+				k.ptr = mut
 			}
 		}
-		out := genHeader + "(* Gallina translation of function bodies of /repo (harness/cmd/gen/gen_kernels.go). *)\nFrom V Require Import Common.Base.\n\n"
-		for _, sn := range g.sorder {
-			st := g.structs[sn]
-			var fs []string
-			for i := 0; i < st.NumFields(); i++ {
-				save := g.cur
-				fs = append(fs, fmt.Sprintf("%s_%s : %s", sn, st.Field(i).Name(), g.tyOf(st.Field(i).Type(), token.NoPos).coq()))
-				g.cur = save
-			}
-			out += fmt.Sprintf("Record %s : Type := mk_%s { %s }.\n\n", sn, sn, strings.Join(fs, "; "))
-		}
+		key := kkey(s.Dir, s.Recv, s.Name)
+		g.funcs[key] = k
+		keys = append(keys, key)
+	}
+	for _, key := range keys {
+		k := g.funcs[key]
+		k.opt = g.usesLoopOrOptCallee(k, map[string]bool{})
+	}
+	for _, key := range keys {
+		g.translate(g.funcs[key])
 		if g.err != nil {
 			return g.err
 		}
-		for _, key := range order {
-			out += g.funcs[key].out
+	}
+	// topological order by calls (stable: configured order)
+	done := map[string]bool{}
+	var order []string
+	var visit func(string, int) error
+	visit = func(key string, depth int) error {
+		if done[key] {
+			return nil
 		}
-		writeIfChanged("Kernels_gen.v", []byte(out))
+		if depth > len(keys) {
+			return fmt.Errorf("recursive kernels at %s", key)
+		}
+		var cs []string
+		for c := range g.funcs[key].calls {
+			cs = append(cs, c)
+		}
+		sort.Strings(cs)
+		for _, c := range cs {
+			if err := visit(c, depth+1); err != nil {
+				return err
+			}
+		}
+		done[key] = true
+		order = append(order, key)
 		return nil
+	}
+	for _, key := range keys {
+		if err := visit(key, 0); err != nil {
+			return err
+		}
+	}
+	out := genHeader + "(* Gallina translation of function bodies of /repo (harness/cmd/gen/gen_kernels.go). *)\nFrom V Require Import Common.Base.\n" + requires + "\n"
+	for _, sn := range g.sorder {
+		st := g.structs[sn]
+		var fs []string
+		for _, fld := range kfields(st) {
+			save := g.cur
+			fs = append(fs, fmt.Sprintf("%s_%s : %s", sn, fld.Name(), g.tyOf(fld.Type(), token.NoPos).coq()))
+			g.cur = save
+		}
+		out += fmt.Sprintf("Record %s : Type := mk_%s { %s }.\n\n", sn, sn, strings.Join(fs, "; "))
+	}
+	if g.err != nil {
+		return g.err
+	}
+	for _, key := range order {
+		out += g.funcs[key].out
+	}
+	writeIfChanged(outFile, []byte(out))
+	return nil
+}
+
+// kernelSpecsMore: further kernels, configured in gen_kernels_more.go; they are translated together with
+// kernelSpecs (so they may call them) into a second file, KernelsMore_gen.v.
+var kernelSpecsMore []kernelSpec
+
+func init() {
+	register("kernels", func() error {
+		if err := runKernels(kernelSpecs, "Kernels_gen.v", ""); err != nil {
+			return err
+		}
+		if len(kernelSpecsMore) == 0 {
+			return nil
+		}
+		return runKernels(append(append([]kernelSpec{}, kernelSpecs...), kernelSpecsMore...), "KernelsMore_gen.v", "")
 	})
 }
